@@ -170,7 +170,8 @@ class OutputBuffer:
 
     def v(self, s: str, write_now: bool = False) -> 'OutputBuffer':
         '''Prints a message if verbose output is enabled.'''
-        if self.verbose or self.debug:
+        # With JSON output, verbose status messages are left out, so that stdout remains a single JSON document.
+        if (self.verbose and not self.json) or self.debug:
             self.info(s)
             if write_now:
                 self.write()
